@@ -10,6 +10,8 @@ CHECKS = {
          "completeness is proved for the model; a negligible set of coins (explicit predicate) makes honest proofs fail"),
  "C12": ("Lean theorems on challenge pre-image injectivity and response non-malleability; tie = both verifiers judge every substitution and single-component perturbation of accepted proofs",
          "collision resistance of SHA-512/256 appears as the alternative conclusion; soundness against adaptive provers not claimed"),
+ "C13": ("Lean proof that the MtA exchange of the model (AliceInit, BobMid(WC), AliceEnd(WC) over the Paillier and proof-system models) yields alpha+beta = ab mod q under the no-wrap bound implied by 2048-bit moduli, that shares are produced only behind accepted proof gates, and that altered ciphertexts change the hashed pre-image; tie = whole exchanges run by the library with Alice's last step as an exact op",
+         "completeness of the embedded proofs is C10; soundness against adaptive provers not claimed"),
  "C14": ("Lean proof of Paillier correctness, homomorphisms, unit-ness, freshness, exact guards and key shape for Go-shaped definitions (modPow, ModInverse as Option); tie = exact ops on vendored and generated keys, CRT oracle",
          "number theory from Mathlib; ProbablyPrime trusted for generated keys"),
  "C15": ("Lean theorems about Feldman VSS for every lawful curve record (verification iff on the polynomial, reconstruction, privacy, refusals); tie = exact ops with scripted coefficients on both curves",
